@@ -37,7 +37,7 @@ RULE = ("a case = (obs sandboxed ooo pipeline fine programs schedule): 2-3 view 
         "(hand transcription, or the real from_app in the sandboxed build) on the harness-owned executor. Coarse "
         "schedules (start = build_response + first poll / create = build_response only, first poll later / complete gate g / run request to quiescence / finish) are enumerated exhaustively as all "
         "interleavings of the two requests' action lists for small program pairs and drawn from the PRNG (VERIF_SEED) "
-        "beyond, each in 4 configurations (arenas global or sandboxed x in-order or out-of-order streaming) and emitted "
+        "beyond (plus oracle-only schedules in which a response is dropped from outside while another request is current and tasks that outlive their request are polled afterwards), each in 4 configurations (arenas global or sandboxed x in-order or out-of-order streaming) and emitted "
         "twice: obs=0 (abstract trace, compared with the Coq model) and obs=1 (responses + solo replays, for the "
         "oracle). Fine schedules (every single task poll / gate completion chosen by the case) over deeper programs are "
         "oracle-only. A case is non-trivial when at least two requests are in flight at the same time and one of them "
@@ -135,7 +135,7 @@ class Gen:
         if r < 0.76 and not sync:
             return [SUSPENSE, self.view(self.maxdepth - 1, True, slots), self.view(d + 1, False, slots, False, True)]
         if r < 0.86 and not sync:
-            return [RESOURCE, rng.randrange(2), rng.randrange(self.ng), self.probe(), self.probe(), self.probe(),
+            return [RESOURCE, rng.randrange(3), rng.randrange(self.ng), self.probe(), self.probe(), self.probe(),
                     self.view(d + 1, self.flat, slots, not insus, insus)]
         if r < 0.91:
             self.cid += 1
@@ -217,6 +217,33 @@ def coarse_sched(rng, n, ngates, length):
     return s
 
 
+def late_sched(rng, n, ngates, length):
+    """coarse schedule with aborted responses (5) and late polls of tasks that outlive them (6)"""
+    s, started, gone = [], set(), set()
+    for _ in range(length):
+        r = rng.randrange(1, n + 1)
+        if r not in started:
+            s.append([4 if rng.random() < 0.3 else 0, r])
+            started.add(r)
+            continue
+        k = rng.random()
+        if r in gone:
+            s.append([1, r, rng.randrange(max(1, ngates))] if k < 0.5 else [6, r])
+        elif k < 0.3:
+            s.append([1, r, rng.randrange(max(1, ngates))])
+        elif k < 0.7:
+            s.append([2, r])
+        elif k < 0.8:
+            s.append([6, r])
+        elif k < 0.93:
+            s.append([5, r])
+            gone.add(r)
+        else:
+            s.append([3, r])
+            gone.add(r)
+    return s
+
+
 def both(sb, ooo, pipeline, progs, sched, kind):
     yield dict(case=[0, sb, ooo, pipeline, 0, progs, sched], kind=kind + "/trace", compare=True)
     yield dict(case=[1, sb, ooo, pipeline, 0, progs, sched], kind=kind + "/solo", compare=False)
@@ -256,6 +283,19 @@ def generate(rng, tier):
         sched = [rng.randrange(1000) for _ in range(rng.randrange(4, 60))]
         yield dict(case=[1, sb, rng.randrange(2), rng.randrange(2) if sb else 0, 1, progs, sched],
                    kind="random-fine/solo", compare=False)
+    # 3b. responses dropped from outside while other requests are current, tasks that outlive their
+    #     request (reactive_graph::spawn), handles under nested owners read afterwards: oracle only
+    for _ in range(900 if quick else 15000):
+        n = rng.choice([2, 2, 3])
+        ng = rng.choice([1, 2])
+        if rng.random() < 0.6:      # same program everywhere: arena keys collide across sandboxed arenas
+            progs = [gen_prog(rng, rng.choice([2, 3, 4]), ng, rng.random() < 0.5, True)] * n
+        else:
+            progs = [gen_prog(rng, rng.choice([2, 3, 4]), ng, rng.random() < 0.5, rng.random() < 0.7) for _ in range(n)]
+        sb = int(rng.random() < 0.8)
+        yield dict(case=[1, sb, rng.randrange(2), rng.randrange(2) if sb else 0, 0, progs,
+                         late_sched(rng, n, ng, rng.randrange(5, 20))],
+                   kind="abort-late/solo", compare=False)
     # 4. negative control: an integration that streams the body outside the owner (build_response
     #    before the F-C20-a repair). Not judged; coverage_extra counts how often the leak shows.
     for _ in range(60 if quick else 600):
@@ -286,7 +326,7 @@ def wf_prog(p, slots=()):
     if op == SUSPENSE:
         return len(a) == 2 and wf_prog(a[0], slots) and wf_prog(a[1], slots)
     if op == RESOURCE:
-        return len(a) == 6 and ints(a[:5]) and a[0] < 2 and a[1] < 8 and wf_prog(a[5], slots)
+        return len(a) == 6 and ints(a[:5]) and a[0] < 3 and a[1] < 8 and wf_prog(a[5], slots)
     if op == CLEANUP:
         return len(a) == 2 and ints(a[:1]) and wf_prog(a[1], slots)
     if op == ALLOC:
@@ -370,7 +410,9 @@ def valid_case(item):
     for a in sched:
         if not (isinstance(a, list) and len(a) in (2, 3) and all(isinstance(x, int) for x in a)):
             return False
-        if not (0 <= a[0] <= 4 and 1 <= a[1] <= len(progs) and (len(a) == 3) == (a[0] == 1) and (len(a) < 3 or 0 <= a[2] < 8)):
+        if item.get("compare", True) and a[0] > 4:
+            return False
+        if not (0 <= a[0] <= 6 and 1 <= a[1] <= len(progs) and (len(a) == 3) == (a[0] == 1) and (len(a) < 3 or 0 <= a[2] < 8)):
             return False
     return True
 
@@ -381,9 +423,12 @@ def own_event(r, e):
     probe, kind, owner_req, t0, t1, item = e
     if kind == 8:      # background task behind Sandboxed only: the arena item is all it is promised
         return "arena item %d" % item if item >= 0 and item // 10000 != r else None
-    if owner_req != r:
-        return "ambient owner of request %d" % owner_req if owner_req else "no ambient owner"
-    if t0 != 100 + r:
+    # seeing *nothing* (no owner: 0, an owner of no live request: 99, no context: -1) is what a
+    # task legitimately sees once its own request's root is gone; whether it is right at this
+    # point is decided by the comparison with the solo replay, not here
+    if owner_req not in (r, 0, 99):
+        return "ambient owner of request %d" % owner_req
+    if t0 not in (100 + r, -1):
         return "root context %d" % t0
     if t1 not in (-1, -5) and t1 // 1000 != r:
         return "provider context %d" % t1
@@ -459,7 +504,7 @@ def nontrivial(item, model):
         if a[0] in (0, 4):
             started.add(a[1])
             open_.add(a[1])
-        elif a[0] == 3:
+        elif a[0] in (3, 5):
             open_.discard(a[1])
         elif a[1] in open_ and len(open_) >= 2:
             overlap = True
@@ -476,7 +521,7 @@ def describe(it):
         head = names[p[0]] if isinstance(p[0], int) and 0 <= p[0] < len(names) else str(p[0])
         return head + "(" + ", ".join(pv(x) if isinstance(x, list) else str(x) for x in p[1:]) + ")"
 
-    acts = {0: "start", 1: "gate", 2: "run", 3: "finish", 4: "create"}
+    acts = {0: "start", 1: "gate", 2: "run", 3: "finish", 4: "create", 5: "abort", 6: "run-late"}
     if c[4]:
         sched = "fine picks %r" % (c[6],)
     else:
